@@ -33,7 +33,7 @@ def run(ck):
             p = os.path.join(ck.bdir, f'AttrFlow_gen_{flag}.v')
             open(p, 'w').write(txt)
             rc, out, dt = coqc(p)
-            ck.checker_cmds.append(f'coqc build/C17/AttrFlow_gen_{flag}.v')
+            ck.checker_cmds.append(f'coqc build/C17/run_<pid>/AttrFlow_gen_{flag}.v')
             inv = {v: k for k, v in ids.items()}
             if rc != 0:
                 ck.obligation(f'AttrFlow_gen_{flag}.v compiles', 'translation', False, out)
